@@ -440,7 +440,66 @@ def job_simu(cfg):
     return res
 
 
+def job_moved(cfg):
+    """a long-lived Field: position-dependent forms are integrated, the mesh is then moved IN PLACE (symbolic translation), and the same Field is
+    used again - the forms must equal the built-in operators on the moved mesh (coefficients evaluated at the moved Gauss points)"""
+    from EasyFEA.FEM import Field, BiLinearForm, LinearForm, MatrixType
+    from EasyFEA.FEM.Operators import Bilinear, Linear
+
+    res = JobResult(cfg)
+    c = new_context()
+    facade.install()
+    et = cfg["elem"]
+    mesh = get_mesh(et)
+    g = mesh.groupElem
+    dim = g.dim
+    pc_ = sym_array("p", (dim + 1,), Fraction(-1), Fraction(1))
+    t = [c.var(f"t{i}", -1, 1) for i in range(dim)]
+    res.symbols = dim + 1 + dim
+    res.functions |= {"Field.Get_coords", "BiLinearForm.Integrate_e", "LinearForm.Integrate_e", "Mesh.Translate", "_GroupElem.Get_GaussCoordinates_e_pg", "Bilinear.GradUGradV", "Linear.V"}
+    key = f"scalar field {et}, same Field before and after an in-place translation of the mesh"
+    mt = MatrixType.mass
+
+    def run(pp, tt, m_, symbolic):
+        g_ = m_.groupElem
+        field = Field(g_, 1, mt)
+        bf = BiLinearForm(lambda u, v: poly_coef(pp, *u.Get_coords(), dim) * u.grad.dot(v.grad))
+        lf = LinearForm(lambda v: poly_coef(pp, *field.Get_coords(), dim) * v)
+        bf.Integrate_e(field), lf.Integrate_e(field)  # first use on the mesh as generated
+        m_.Translate(*tt, *([0.0] * (3 - dim)))
+        gotK, gotF = bf.Integrate_e(field), lf.Integrate_e(field)
+        xyz = np.moveaxis(np.asarray(g_.Get_GaussCoordinates_e_pg(mt), dtype=object if symbolic else float), -1, 0)
+        coef = poly_coef(pp, xyz[0], xyz[1], xyz[2], dim)
+        wantK = Bilinear.GradUGradV(g_, coef=coef, matrixType=mt)
+        wantF = Linear.V(g_, coef, dof_n=1, matrixType=mt)
+        return gotK, wantK, gotF, wantF
+
+    mark = c.mark()
+    with facade.symbolic():
+        gotK, wantK, gotF, wantF = run(pc_, t, mesh, True)
+    pcs = c.pc_since(mark)
+    res.paths, res.path_conditions = 1, len(pcs)
+
+    def replay(env):
+        full = {kk: float(v) for kk, v in {**c.shadow, **(env or {})}.items()}
+        pf = [float(as_sym(x).eval(full)) for x in pc_]
+        tf = [float(as_sym(x).eval(full)) for x in t]
+        gK, wK, gF, wF = run(pf, tf, get_mesh(et), False)
+        dK = float(np.abs(np.asarray(gK, dtype=float) - np.asarray(wK, dtype=float).reshape(np.shape(gK))).max())
+        dF = float(np.abs(np.asarray(gF, dtype=float) - np.asarray(wF, dtype=float).reshape(np.shape(gF))).max())
+        return max(dK, dF) > 1e-9, {"translation": tf, "p": pf, "max_abs_difference_bilinear_form_vs_operator": dK, "max_abs_difference_linear_form_vs_operator": dF}
+
+    compare_arrays(res, f"{key}: (p0+p1 x+..) grad(u).grad(v)", gotK, wantK, pcs, replay, TOL, key=f"scalar field {et} moved mesh: position-dependent bilinear form")
+    compare_arrays(res, f"{key}: (p0+p1 x+..) v", gotF, wantF, pcs, replay, TOL, key=f"scalar field {et} moved mesh: position-dependent linear form")
+    o = prove_abs_le(as_sym(np.asarray(gotF, dtype=object).flat[0]) * 2 - as_sym(np.asarray(wantF, dtype=object).flat[0]), TOL, pcs, "twin")
+    res.twin(f"{key} twin", o.status == "cex")
+    res.stubs |= facade.USED_STUBS
+    return res
+
+
 def job(cfg):
+    if cfg.get("kind") == "moved":
+        return job_moved(cfg)
     return {"scalar": job_scalar, "vector": job_vector, "simu": job_simu}[cfg["kind"]](cfg)
 
 
@@ -454,6 +513,8 @@ def main():
         configs.append({"kind": "simu", "elem": e, "which": "thermal"})
     for e in ["TRI3", "QUAD4"] + (["TETRA4", "TRI6"] if tier == "thorough" else []):
         configs.append({"kind": "simu", "elem": e, "which": "elastic"})
+    for e in (["TRI3", "QUAD4"] if tier == "quick" else ["TRI3", "TRI6", "QUAD4", "TETRA4"]):
+        configs.append({"kind": "moved", "elem": e})
     results = harness.run_jobs(job, configs)
     harness.finish(
         PID, results, t0=t0,
